@@ -976,6 +976,13 @@ func body(c *sched.Ctl, cs Case, v *ev.Verdict) {
 					return // the value that was returnable at its last look
 				}
 				if err == context.Canceled && w.cancelled {
+					// giving up is fine, but not instead of an exit that the call could have reported:
+					// WaitExited looks at the container before it looks at its own context
+					if w.samples == 0 {
+						fail("C14", "routine:waitexited-never-looked", "WaitExited #%d returned context.Canceled without ever looking at the container", w.id)
+					} else if w.lastOK && w.lastErr != context.Canceled && (m.rec != nil && (m.rec.status == stFailed || m.rec.status == stSucceeded)) {
+						fail("C14", "routine:waitexited-cancel-instead-of-exit", "WaitExited #%d returned context.Canceled although at its last look the current instance had exited with %v", w.id, w.lastErr)
+					}
 					return
 				}
 				for _, e := range w.sent {
